@@ -30,6 +30,9 @@ SCLS = [0.01, 0.37, 37.0, 100.0, 2.5]
 
 GEO_BASE = ['-w', '1,5,0.3,0.2,1.0,2.1,0.4,1.6,0.002', '-a', '2,6,1.4,10,150,0.0015',
             '--helix', '3,8,1.1,0.5,0.001,0.3,0.4,0.2,0.25']
+# a fat tapered wire (the 2.5 r bound of the taper is active) and a D loop (half circle closed by a wire)
+GEO_BASE2 = ['-w', '1,8,0.3,0.2,3.0,1.5,0.4,3.6,0.06', '--taper-wire=1,1', '-a', '2,6,1.5,0,180,0.0015',
+             '-w', '3,5,1.5,0,0,-1.5,0,0,0.001']
 PHYS_FREE = ['-w', '1,4,0,0,10,3.0,0,10.6,0.002', '-w', '2,3,3.0,0,10.6,3.2,2.1,11.5,0.002',
              '-w', '3,3,0,0,10,-1.2,0.4,7.6,0.0015', '--excitation-pulse=2,1',
              '--load=30+20j', '--attach-load=1,1,2']
@@ -94,9 +97,11 @@ def seg_points(g):
     return np.array([s.p1 for s in g.segments] + [g.segments[-1].p2], float)
 
 
-def geometry_check(rec, rnd, base=GEO_BASE):
+def geometry_check(rec, rnd, base=None):
     """(i) -- returns list of mismatches"""
     bad = []
+    if base is None:
+        base = rnd.choice([GEO_BASE, GEO_BASE2])
     m0, msg = run_main(base)
     argv, params = concretise(rec, rnd)
     m1, msg = run_main(base + argv)
@@ -107,7 +112,10 @@ def geometry_check(rec, rnd, base=GEO_BASE):
         exp, r = apply_maps(seg_points(g0), g0.r_orig, ids, params)
         got = seg_points(g1)
         size = max(np.abs(exp).max(), 1e-12)
-        if got.shape != exp.shape or np.abs(got - exp).max() > 1e-9 * size:
+        # a tapered wire is re-segmented after the transformation by an iterative algorithm: its
+        # interior segment ends follow the transformation only to the accuracy of that algorithm
+        tol = 1e-4 if getattr(g0, 'segtype', 0) else 1e-9
+        if got.shape != exp.shape or np.abs(got - exp).max() > tol * size:
             bad.append(dict(what='segment-end-points', obj=type(g0).__name__, tag=g0.tag,
                             nrot=sum(1 for i in ids if params[i][0] == 'R'),
                             multi_axis=any(params[i][0] == 'R' and sum(1 for a in params[i][1] if a) > 1 for i in ids),
@@ -119,8 +127,12 @@ def geometry_check(rec, rnd, base=GEO_BASE):
         s_tot = np.prod([params[i][1] for i in ids if params[i][0] == 'S']) if ids else 1.0
         l0 = np.array([s.seg_len for s in g0.segments])
         l1 = np.array([s.seg_len for s in g1.segments])
-        if l0.shape != l1.shape or np.abs(l1 - l0 * s_tot).max() > 1e-9 * l0.max() * s_tot:
+        if l0.shape != l1.shape or np.abs(l1 - l0 * s_tot).max() > tol * l0.max() * s_tot:
             bad.append(dict(what='segment-lengths', obj=type(g0).__name__, tag=g0.tag))
+    # objects that are moved together stay joined: the D loop of the second base keeps its two
+    # junction pulses when arc and closing wire get the same maps
+    if base is GEO_BASE2 and rec['maps'][1] == rec['maps'][2] and len(m1.pulses) != len(m0.pulses):
+        bad.append(dict(what='junctions-lost-by-transformation', base_pulses=len(m0.pulses), pulses=len(m1.pulses)))
     return bad, argv
 
 
